@@ -209,7 +209,7 @@ def conditions(tier, seed, active):
                 out.append(dict(id="built/%s/d%d/steps%d/prefix%s" % (col, d, steps, "".join(map(str, prefix))), module=__name__, factory="cube",
                                 params=dict(d=d, collide=col, steps=steps, prefix=list(prefix), same=sm, built=True), timeout=1500 if quick else 3600,
                                 tags=["errors"], witness=[]))
-        if d == 7 or not quick:
+        if not quick:
             for p0 in range(3):
                 for p1 in (range(1) if quick else range(3)):
                     out.append(dict(id="three/ref/d%d/steps3/first%d%d" % (d, p0, p1), module=__name__, factory="cube",
